@@ -93,4 +93,49 @@ def wfStubsB (cfg : Config) (f : File) : Bool :=
   f.constraints.all (fun c => noNLb c && isConstraintLine c) &&
   (f.hasConstraints || f.constraints.isEmpty) && f.functions.all wfStubFnB
 
+/-! ### Verbatim transport of user text (judged on the real, formatted file)
+
+Every text the caller hands to avo — the signature (with its struct tags), the
+tool name / command line — must reach the stub file as it is: no layer may
+interpret it (as a format string, an escape sequence, …).  go/format re-lays
+out a declaration (line breaks instead of `;`, alignment), so the declaration
+is compared modulo layout characters only; every other character — `%`,
+quotes, backslashes, comment markers, non-ASCII text — must be there, in order. -/
+
+/-- Layout characters: what go/format inserts, removes or exchanges between the
+tokens of a declaration (blank, tab, line end, and the `;` a line end stands for). -/
+def isLayout (c : Char) : Bool := c == ' ' || c == '\t' || c == '\n' || c == ';'
+
+def squash (t : Txt) : Txt := t.filter (fun c => !isLayout c)
+
+/-- Paragraphs: the runs of lines between empty lines. -/
+def splitBlank : List Txt → List (List Txt)
+  | [] => [[]]
+  | l :: ls =>
+    if l.isEmpty then [] :: splitBlank ls
+    else match splitBlank ls with
+      | [] => [[l]]
+      | h :: t => (l :: h) :: t
+
+/-- The declaration of a paragraph: what follows its leading `//` lines, when
+that starts with `func `; all its lines, layout characters removed. -/
+def declText? (p : List Txt) : Option Txt :=
+  match p.dropWhile (hasPrefix kwSlashes) with
+  | [] => none
+  | l :: r => if hasPrefix kwFunc l then some (squash (l :: r).flatten) else none
+
+def declTexts (ls : List Txt) : List Txt := (splitBlank ls).filterMap declText?
+
+/-- Acceptor for the real (formatted) stub file: the first line is the
+generated-code comment naming the tool / command line verbatim; the function
+declarations are, in file order, the `Stub()` texts of the file's functions
+character for character up to layout. -/
+def acceptVerbatim (cfg : Config) (f : File) (out : Txt) : String :=
+  match textLines? out with
+  | none => "bad-no-final-newline"
+  | some ls =>
+    if ls.head? != some (commentText (generatedWarning cfg)) then "bad-generated-comment" else
+    if declTexts ls != f.functions.map (fun fn => squash fn.stub) then "bad-declaration-text"
+    else "ok"
+
 end Avo.Print
